@@ -43,6 +43,8 @@ type FnCtx struct {
 	loopWrites    map[*ssa.BasicBlock]map[string]bool
 	loopCellW     map[*ssa.BasicBlock]map[int]bool
 	loopHavocAll  map[*ssa.BasicBlock]bool
+	loopKeep      map[*ssa.BasicBlock][]string // heap-name prefixes kept by EVERY whole-heap havoc inside the loop (nil: none seen yet)
+	loopKeepSet   map[*ssa.BasicBlock]bool
 	activeLoops   []*ssa.BasicBlock
 	nEpoch        int
 	nCell         int
@@ -944,9 +946,20 @@ func (fc *FnCtx) panicText(fr *Frame, p *ssa.Panic) string {
 
 // havocLoop forgets everything the loop body may write.
 func (fc *FnCtx) havocLoop(fr *Frame, h *ssa.BasicBlock, st *State) {
-	if fc.discovery || fc.loopHavocAll[h] {
+	if fc.discovery {
+		saved := fc.activeLoops
+		fc.activeLoops = nil
 		fc.havocAll(st)
+		fc.activeLoops = saved
 	} else {
+		if fc.loopHavocAll[h] {
+			// the body contains whole-heap havocs: forget everything except what all
+			// of them keep; names the body writes directly are forgotten below
+			saved := fc.activeLoops
+			fc.activeLoops = nil // (this havoc is the loop head itself, not an event inside another iteration)
+			fc.havocAllBut(st, fc.loopKeep[h])
+			fc.activeLoops = saved
+		}
 		names := make([]string, 0)
 		for n := range fc.loopWrites[h] {
 			names = append(names, n)
@@ -986,6 +999,24 @@ func (fc *FnCtx) havocLoop(fr *Frame, h *ssa.BasicBlock, st *State) {
 	}
 }
 
+// intersectPrefixes: the heap-name prefixes kept by both lists.
+func intersectPrefixes(a, b []string) []string {
+	var out []string
+	seen := map[string]bool{}
+	for _, p := range a {
+		for _, q := range b {
+			if strings.HasPrefix(p, q) && !seen[p] {
+				seen[p] = true
+				out = append(out, p)
+			} else if strings.HasPrefix(q, p) && !seen[q] {
+				seen[q] = true
+				out = append(out, q)
+			}
+		}
+	}
+	return out
+}
+
 // havocAll forgets the entire heap except allocation monotonicity.
 func (fc *FnCtx) havocAll(st *State) { fc.havocAllBut(st, nil) }
 
@@ -1017,6 +1048,19 @@ func (fc *FnCtx) havocAllBut(st *State, prefixes []string) {
 			if strings.HasPrefix(n, p) {
 				keep[n] = st.heap[n]
 			}
+		}
+	}
+	// loops: what every whole-heap havoc of the body keeps survives the loop head too
+	for _, h := range fc.activeLoops {
+		if fc.loopKeep == nil {
+			fc.loopKeep = map[*ssa.BasicBlock][]string{}
+			fc.loopKeepSet = map[*ssa.BasicBlock]bool{}
+		}
+		if !fc.loopKeepSet[h] {
+			fc.loopKeepSet[h] = true
+			fc.loopKeep[h] = append([]string{}, kp...)
+		} else {
+			fc.loopKeep[h] = intersectPrefixes(fc.loopKeep[h], kp)
 		}
 	}
 	// every other name, touched or not, gets a new initial value: new epoch.
